@@ -175,6 +175,10 @@ def maker(cfg):
                 ports.append(s)
                 if path[0] != "port" and member.flow == In:
                     ports.env.add(id(s))      # user-side inputs of the action (R.r_data, RW1C.set, ...)
+                if path == ("port", "r_data") and "r" not in ACTIONS[t["leaf"]]:
+                    # a write-only / reserved field's r_data is not driven by the built-in actions (a user-defined
+                    # action might drive it): arbitrary, and the register must not let it through
+                    ports.env.add(id(s))
         return Harness(reg, ports, reg=reg, leaves=leaves)
     return make
 
